@@ -339,6 +339,54 @@ def fw_faithful(li: int, slot: int, permit: bool, ipi: int, pti: int, pri: int, 
         check(f["PORTS"][k]["operating_status"] == (1 if port.enabled else 2), lambda: f"firewall port {k} status differs from the interface")
 
 
+def users_faithful(local: bool, nrem: int, ns: int, limit: int):
+    """The users leaves of a host: local_login is 1 exactly when a user is logged in locally, remote_sessions is the
+    number of open remote sessions (capped at the observation's maximum); sessions are opened through the real
+    terminal / session-manager API from another host; a host that is not ON reads as default."""
+    from ipaddress import IPv4Address
+
+    from harness.c05_requests import NODE_STATES, _set_node_state
+
+    assume(all_of(rng(nrem, 0, 5), rng(ns, 0, 2), rng(limit, 3, 5)))
+    n = pick_int(nrem, 0, 5)
+    lim = pick_int(limit, 3, 5)
+    st = pick(NODE_STATES, ns)
+    local = True if local else False
+    with concrete():
+        env, cfg = _env(False, "switched")
+        sim = env.game.simulation
+        om = env.agent.observation_manager
+        node = sim.network.get_node_by_hostname("client_1")
+        peer = sim.network.get_node_by_hostname("client_2")
+        usm = node.user_session_manager
+        usm.max_remote_sessions = lim
+        opened = 0
+        for _ in range(n):
+            c = peer.terminal.login(username="admin", password="admin", ip_address=IPv4Address("192.168.1.2"))
+            if c is not None:
+                opened += 1
+        if local:
+            usm.local_login("admin", "admin")
+        real_remote = len(usm.remote_sessions)
+        if real_remote != min(n, lim):
+            fail(f"harness: {n} remote logins with limit {lim} opened {real_remote} sessions")
+        _set_node_state(node, st)
+        real_remote = len(usm.remote_sessions)
+        real_local = usm.local_session is not None
+    try:
+        obs = om.update(sim.describe_state())
+    except Exception as e:
+        fail(f"describe_state/update raised {type(e).__name__}: {str(e)[:200]}")
+    u = obs["NODES"]["HOST0"]["users"]
+    if st != "ON":
+        cover("users_not_on")
+        check(u["local_login"] == 0 and u["remote_sessions"] == 0, lambda: f"users leaves of a host that is {st} do not read as default: {u}")
+        return
+    cover("users_on")
+    check(u["local_login"] == (1 if real_local else 0), lambda: f"local_login reads {u['local_login']}, a local session is {'open' if real_local else 'not open'}")
+    check(u["remote_sessions"] == min(real_remote, 3), lambda: f"remote_sessions reads {u['remote_sessions']}, {real_remote} remote sessions are open (observation maximum 3)")
+
+
 def off_memory(ns: int, n_in: int, n_out: int, svc: int, fh: int, acc: int, execs: int, kind: str = "routed"):
     """History independence of the 'not ON' reading: a host is observed while ON with solver-chosen non-default
     quantities (NMNE counts, service state, file health, access / execution counts), then goes down and is observed
@@ -443,6 +491,13 @@ HARNESSES = {
         "thorough": [{"fixed": {"fw_on": True, "li": l}, "timeout": 1200} for l in range(6)] + [{"fixed": {"fw_on": False}, "timeout": 120}],
         "cover": ["fw_on", "fw_off"],
         "bounds": "generated firewall-with-DMZ scenario; one rule in any of the six lists at any of the 4 observed slots with listed/None address, wildcard, port, protocol and both actions; the three ports enabled/disabled; firewall ON/OFF",
+    },
+    "users_faithful": {
+        "fn": users_faithful,
+        "quick": [{"fixed": {}, "timeout": 280}],
+        "thorough": [{"fixed": {}, "timeout": 600}],
+        "cover": ["users_on", "users_not_on"],
+        "bounds": "0-5 remote logins from another host through the real terminal with a session limit of 3-5 (so the observation's cap of 3 is exceeded), local login or not, host ON / SHUTTING_DOWN / OFF",
     },
     "off_memory": {
         "fn": off_memory,
